@@ -1,9 +1,251 @@
-(* Properties/C20.v — placeholder until Proofs/Distances.v exists *)
-From Coq Require Import List Arith.
-From PrefVerif Require Import Lib.Val Model.Distances.
-Theorem kt_len_mismatch : forall o1 o2, length o1 <> length o2 -> kendall_tau o1 o2 = Err ValueErr.
+(* Properties/C20.v — ranking distances are true distances; distance matrix matches the profile.
+   Statements only; every proof is `exact <lemma of Proofs/Distances.v>`.
+
+   Model (Model/Distances.v): rankings are `list N`; `idx o x` is `o.index(x)` (position of the first
+   occurrence, `length o` when absent); `kendall_tau`, `spearman_footrule`, `sertel` return
+   `Ok value | Err ValueErr`; the two normalised distances return the exact pair (numerator, denominator)
+   that the code divides; `distance_matrix zero d profile` is the generic matrix builder and
+   `expand_profile` is `full_profile()`.
+   Hypotheses of the quantifier "strict rankings of the same set": `NoDup o1` and `Permutation o1 o2`;
+   "at least two alternatives" (`2 <= length o1`) is only needed for the denominators to be positive. *)
+From Coq Require Import List Arith NArith Bool Permutation.
+From PrefVerif Require Import Lib.Val Model.Distances Proofs.Distances.
+Import ListNotations.
+
+(* ---- what `idx` means ------------------------------------------------------------------------- *)
+
+Theorem idx_position : forall (l : list N) (i : nat) (d : N),
+  NoDup l -> i < length l -> idx l (nth i l d) = i.
+Proof. exact Proofs.Distances.idx_nth. Qed.
+Print Assumptions idx_position.
+
+(* "a before b in o"  <->  idx o a < idx o b *)
+Theorem idx_before_iff : forall (o : list N) (a b : N), NoDup o ->
+  ((In a o /\ In b o /\ idx o a < idx o b) <-> exists l1 l2 l3, o = l1 ++ a :: l2 ++ b :: l3).
+Proof. exact Proofs.Distances.idx_before_iff. Qed.
+Print Assumptions idx_before_iff.
+
+(* ---- Kendall tau ------------------------------------------------------------------------------ *)
+
+(* = the number of ordered pairs (a,b) of alternatives with a before b in o1 and b before a in o2 *)
+Theorem kt_spec : forall o1 o2 : list N, NoDup o1 -> Permutation o1 o2 ->
+  kendall_tau o1 o2 =
+  Ok (length (filter (fun ab => (idx o1 (fst ab) <? idx o1 (snd ab)) && (idx o2 (snd ab) <? idx o2 (fst ab)))
+                     (list_prod o1 o1))).
+Proof. exact Proofs.Distances.kt_spec. Qed.
+Print Assumptions kt_spec.
+
+Theorem kt_zero_iff : forall o1 o2 : list N, NoDup o1 -> Permutation o1 o2 ->
+  (kendall_tau o1 o2 = Ok 0 <-> o1 = o2).
+Proof. exact Proofs.Distances.kt_zero_iff. Qed.
+Print Assumptions kt_zero_iff.
+
+Theorem kt_sym : forall o1 o2 : list N, NoDup o1 -> Permutation o1 o2 ->
+  kendall_tau o1 o2 = kendall_tau o2 o1.
+Proof. exact Proofs.Distances.kt_sym. Qed.
+Print Assumptions kt_sym.
+
+Theorem kt_triangle : forall a b c : list N, NoDup a -> Permutation a b -> Permutation b c ->
+  exists dab dbc dac, kendall_tau a b = Ok dab /\ kendall_tau b c = Ok dbc /\ kendall_tau a c = Ok dac /\
+                      dac <= dab + dbc.
+Proof. exact Proofs.Distances.kt_triangle. Qed.
+Print Assumptions kt_triangle.
+
+Theorem kt_length_mismatch : forall o1 o2 : list N, length o1 <> length o2 ->
+  kendall_tau o1 o2 = Err ValueErr.
+Proof. exact Proofs.Distances.kt_length_mismatch. Qed.
+Print Assumptions kt_length_mismatch.
+
+(* ---- Spearman footrule ------------------------------------------------------------------------ *)
+
+(* the numerator is the sum over the alternatives x of |position of x in o1 - position of x in o2| *)
+Theorem footrule_num_spec : forall o1 o2 : list N, NoDup o1 ->
+  footrule_num o1 o2 = list_sum (map (fun x => (idx o1 x - idx o2 x) + (idx o2 x - idx o1 x)) o1).
+Proof. exact Proofs.Distances.footrule_num_sum. Qed.
+Print Assumptions footrule_num_spec.
+
+Theorem footrule_sym : forall o1 o2 : list N, NoDup o1 -> Permutation o1 o2 ->
+  spearman_footrule o1 o2 = spearman_footrule o2 o1.
+Proof. exact Proofs.Distances.footrule_sym. Qed.
+Print Assumptions footrule_sym.
+
+Theorem footrule_zero_iff : forall o1 o2 : list N, NoDup o1 -> Permutation o1 o2 ->
+  ((exists den, spearman_footrule o1 o2 = Ok (0, den)) <-> o1 = o2).
+Proof. exact Proofs.Distances.footrule_zero_iff. Qed.
+Print Assumptions footrule_zero_iff.
+
+(* numerator <= floor(n^2 / 2), the denominator used by the code *)
+Theorem footrule_bound : forall o1 o2 : list N, NoDup o1 -> Permutation o1 o2 ->
+  footrule_num o1 o2 <= (length o1 * length o1) / 2.
+Proof. exact Proofs.Distances.footrule_bound. Qed.
+Print Assumptions footrule_bound.
+
+(* ... and floor(n^2 / 2) is exactly the largest possible numerator: the reversed ranking attains it *)
+Theorem footrule_bound_tight : forall o : list N, NoDup o ->
+  footrule_num o (rev o) = (length o * length o) / 2.
+Proof. exact Proofs.Distances.footrule_bound_tight. Qed.
+Print Assumptions footrule_bound_tight.
+
+(* the value num/den lies in [0, 1] *)
+Theorem footrule_range : forall o1 o2 : list N, NoDup o1 -> Permutation o1 o2 -> 2 <= length o1 ->
+  exists num den, spearman_footrule o1 o2 = Ok (num, den) /\ 0 < den /\ num <= den.
+Proof. exact Proofs.Distances.footrule_range. Qed.
+Print Assumptions footrule_range.
+
+Theorem footrule_length_mismatch : forall o1 o2 : list N, length o1 <> length o2 ->
+  spearman_footrule o1 o2 = Err ValueErr.
+Proof. exact Proofs.Distances.footrule_length_mismatch. Qed.
+Print Assumptions footrule_length_mismatch.
+
+(* ---- Sertel ----------------------------------------------------------------------------------- *)
+
+(* symmetric on all pairs of lists (both sides are Err ValueErr when the lengths differ) *)
+Theorem sertel_sym : forall o1 o2 : list N, sertel o1 o2 = sertel o2 o1.
+Proof. exact Proofs.Distances.sertel_sym. Qed.
+Print Assumptions sertel_sym.
+
+Theorem sertel_zero_iff : forall o1 o2 : list N, Permutation o1 o2 ->
+  ((exists den, sertel o1 o2 = Ok (0, den)) <-> o1 = o2).
+Proof. exact Proofs.Distances.sertel_zero_iff. Qed.
+Print Assumptions sertel_zero_iff.
+
+Theorem sertel_range : forall o1 o2 : list N, length o1 = length o2 -> 2 <= length o1 ->
+  exists num den, sertel o1 o2 = Ok (num, den) /\ 0 < den /\ num <= den.
+Proof. exact Proofs.Distances.sertel_range. Qed.
+Print Assumptions sertel_range.
+
+(* the loop index j of the code: the lists agree before j and differ at j; (len - 1 - j) is never negative *)
+Theorem sertel_first_diff : forall (o1 o2 : list N) (j : nat), first_diff o1 o2 = Some j ->
+  j < length o1 /\ j < length o2 /\ firstn j o1 = firstn j o2 /\ nth j o1 0%N <> nth j o2 0%N.
+Proof. exact Proofs.Distances.first_diff_Some. Qed.
+Print Assumptions sertel_first_diff.
+
+Theorem sertel_j_le : forall o1 o2 : list N, sertel_j o1 o2 <= length o1 - 1.
+Proof. exact Proofs.Distances.sertel_j_le. Qed.
+Print Assumptions sertel_j_le.
+
+Theorem sertel_length_mismatch : forall o1 o2 : list N, length o1 <> length o2 ->
+  sertel o1 o2 = Err ValueErr.
+Proof. exact Proofs.Distances.sertel_length_mismatch. Qed.
+Print Assumptions sertel_length_mismatch.
+
+(* ---- distance_matrix / full_profile ----------------------------------------------------------- *)
+
+Theorem dm_spec : forall (T D : Type) (zero : D) (d : T -> T -> D) (profile : list T),
+  length (distance_matrix zero d profile) = length profile /\
+  (forall i, i < length profile -> length (nth i (distance_matrix zero d profile) []) = length profile) /\
+  (forall i, i < length profile -> nth i (nth i (distance_matrix zero d profile) []) zero = zero) /\
+  (forall i j dflt, i < length profile -> j < length profile -> i <> j ->
+     nth j (nth i (distance_matrix zero d profile) []) zero = d (nth i profile dflt) (nth j profile dflt)) /\
+  ((forall a b, In a profile -> In b profile -> d a b = d b a) ->
+   forall i j, i < length profile -> j < length profile ->
+     nth j (nth i (distance_matrix zero d profile) []) zero =
+     nth i (nth j (distance_matrix zero d profile) []) zero).
+Proof. exact (@Proofs.Distances.dm_spec). Qed.
+Print Assumptions dm_spec.
+
+(* num_voters = sum of the multiplicities *)
+Theorem expand_profile_length : forall (T : Type) (p : list (T * N)),
+  length (expand_profile p) = list_sum (map (fun om => N.to_nat (snd om)) p).
+Proof. exact (@Proofs.Distances.expand_length). Qed.
+Print Assumptions expand_profile_length.
+
+(* every order occurs in the full profile exactly as many times as its multiplicity *)
+Theorem expand_profile_count : forall (T : Type) (dec : forall x y : T, {x = y} + {x <> y})
+    (p : list (T * N)) (o : T) (k : N),
+  NoDup (map fst p) -> In (o, k) p -> count_occ dec (expand_profile p) o = N.to_nat k.
+Proof. exact (@Proofs.Distances.expand_count). Qed.
+Print Assumptions expand_profile_count.
+
+Theorem expand_profile_count_other : forall (T : Type) (dec : forall x y : T, {x = y} + {x <> y})
+    (p : list (T * N)) (o : T),
+  ~ In o (map fst p) -> count_occ dec (expand_profile p) o = 0.
+Proof. exact (@Proofs.Distances.expand_count_notin). Qed.
+Print Assumptions expand_profile_count_other.
+
+(* the three matrices of an instance of strict complete orders over `alts`, any multiplicities:
+   n x n with n = number of voters, symmetric, zero diagonal, entry (i,j) = distance of ballots i and j
+   (for Kendall tau: the number of discordant pairs of the two ballots) *)
+Theorem dm_instance : forall (alts : list N) (p : list (list N * N)),
+  (NoDup alts /\ Forall (fun om => Permutation alts (fst om)) p) ->
+  let prof := expand_profile p in
+  let n := list_sum (map (fun om => N.to_nat (snd om)) p) in
+  let Mk := distance_matrix (Ok 0) kendall_tau prof in
+  let Mf := distance_matrix (Ok (0, 1)) spearman_footrule prof in
+  let Ms := distance_matrix (Ok (0, 1)) sertel prof in
+  length prof = n /\
+  length Mk = n /\ length Mf = n /\ length Ms = n /\
+  forall i j, i < n -> j < n ->
+    length (nth i Mk []) = n /\ length (nth i Mf []) = n /\ length (nth i Ms []) = n /\
+    nth j (nth i Mk []) (Ok 0) = nth i (nth j Mk []) (Ok 0) /\
+    nth j (nth i Mf []) (Ok (0, 1)) = nth i (nth j Mf []) (Ok (0, 1)) /\
+    nth j (nth i Ms []) (Ok (0, 1)) = nth i (nth j Ms []) (Ok (0, 1)) /\
+    nth i (nth i Mk []) (Ok 0) = Ok 0 /\
+    nth i (nth i Mf []) (Ok (0, 1)) = Ok (0, 1) /\
+    nth i (nth i Ms []) (Ok (0, 1)) = Ok (0, 1) /\
+    (i <> j ->
+      nth j (nth i Mk []) (Ok 0) = Ok (discordant_pairs (nth i prof []) (nth j prof [])) /\
+      nth j (nth i Mf []) (Ok (0, 1)) = spearman_footrule (nth i prof []) (nth j prof []) /\
+      nth j (nth i Ms []) (Ok (0, 1)) = sertel (nth i prof []) (nth j prof [])).
+Proof. exact Proofs.Distances.dm_instance. Qed.
+Print Assumptions dm_instance.
+
+(* ---- non-vacuity: the hypotheses are satisfiable and the functions compute what is claimed ----- *)
+
+Example ex_hypotheses : NoDup [3;1;2;5;4]%N /\ Permutation [3;1;2;5;4]%N [1;2;3;4;5]%N.
+Proof. apply rankings_ok_sound. vm_compute. reflexivity. Qed.
+
+Example ex_hypotheses_triple :
+  NoDup [7;20;3;11]%N /\ Permutation [7;20;3;11]%N [3;7;11;20]%N /\ Permutation [3;7;11;20]%N [20;11;7;3]%N.
 Proof.
-  intros o1 o2 H. unfold kendall_tau.
-  destruct (Nat.eqb_spec (length o1) (length o2)); [contradiction|reflexivity].
+  split; [apply (rankings_ok_sound [7;20;3;11]%N [3;7;11;20]%N); vm_compute; reflexivity|].
+  split; [apply (rankings_ok_sound [7;20;3;11]%N [3;7;11;20]%N); vm_compute; reflexivity|].
+  apply (rankings_ok_sound [3;7;11;20]%N [20;11;7;3]%N); vm_compute; reflexivity.
 Qed.
-Print Assumptions kt_len_mismatch.
+
+(* discordant pairs (3,1) (3,2) (5,4) *)
+Example ex_kt : kendall_tau [3;1;2;5;4]%N [1;2;3;4;5]%N = Ok 3.
+Proof. vm_compute. reflexivity. Qed.
+
+Example ex_kt_reverse : kendall_tau [1;2;3;4]%N [4;3;2;1]%N = Ok 6.
+Proof. vm_compute. reflexivity. Qed.
+
+(* triangle inequality, strict and tight instances: 2 <= 3 + 5 and 6 = 2 + 4 *)
+Example ex_kt_triangle :
+  kendall_tau [7;20;3;11]%N [3;7;11;20]%N = Ok 3 /\ kendall_tau [3;7;11;20]%N [20;7;11;3]%N = Ok 5 /\
+  kendall_tau [7;20;3;11]%N [20;7;11;3]%N = Ok 2 /\
+  kendall_tau [1;2;3;4]%N [2;1;4;3]%N = Ok 2 /\ kendall_tau [2;1;4;3]%N [4;3;2;1]%N = Ok 4.
+Proof. vm_compute. repeat split; reflexivity. Qed.
+
+(* the footrule bound floor(n^2/2) is attained by the reversed ranking, for odd and even n *)
+Example ex_footrule_max :
+  spearman_footrule [1;2;3;4;5]%N [5;4;3;2;1]%N = Ok (12, 12) /\
+  spearman_footrule [1;2;3;4]%N [4;3;2;1]%N = Ok (8, 8).
+Proof. vm_compute. split; reflexivity. Qed.
+
+Example ex_footrule : spearman_footrule [3;1;2;5;4]%N [1;2;3;4;5]%N = Ok (6, 12).
+Proof. vm_compute. reflexivity. Qed.
+
+Example ex_sertel :
+  sertel [1;2;3]%N [1;3;2]%N = Ok (1, 2) /\ sertel [1;2;3]%N [3;1;2]%N = Ok (2, 2) /\
+  sertel [1;2;3]%N [1;2;3]%N = Ok (0, 2).
+Proof. vm_compute. repeat split; reflexivity. Qed.
+
+Example ex_length_mismatch :
+  kendall_tau [1;2;3]%N [1;2]%N = Err ValueErr /\ spearman_footrule [1;2]%N [2;1;3]%N = Err ValueErr /\
+  sertel []%N [1]%N = Err ValueErr.
+Proof. vm_compute. repeat split; reflexivity. Qed.
+
+(* an instance with multiplicities 2 and 1: 3 voters *)
+Example ex_dm :
+  distance_matrix (Ok 0) kendall_tau (expand_profile [([1;2;3]%N, 2%N); ([3;2;1]%N, 1%N)]) =
+  [[Ok 0; Ok 0; Ok 3]; [Ok 0; Ok 0; Ok 3]; [Ok 3; Ok 3; Ok 0]].
+Proof. vm_compute. reflexivity. Qed.
+
+Example ex_dm_hypothesis :
+  NoDup [1;2;3]%N /\
+  Forall (fun om => Permutation [1;2;3]%N (fst om)) [([1;2;3]%N, 2%N); ([3;2;1]%N, 1%N)].
+Proof.
+  split; [apply nodupb_sound; vm_compute; reflexivity|].
+  repeat constructor; apply (rankings_ok_sound [1;2;3]%N); vm_compute; reflexivity.
+Qed.
